@@ -531,6 +531,630 @@ theorem C16_words_witnesses :
   · rw [← C16_words_roundtrip_iff]; decide
   · rw [← C16_words_roundtrip_iff]; decide
 
+/-! ## Part 4 — the table-level round trip, with the external codecs as parameters
+
+  `C16_structs_roundtrip` (Props/C16) demands a MODELLED codec for every present field (`LeafDomain`),
+  and `Repository.URIs`, `Version` of apt.Source / apt.Package / Buildinfo are mandatory fields with an
+  external codec: for these four structs its hypotheses are contradictory
+  (`C16_structs_roundtrip_vacuous_rows`), for control.Source / Binary / PatchHeader it covers only values
+  without any Relations / Url / date field. Here the external codecs are parameters (`ExtCodecs` of
+  Props/C20): the spec of a row is `specOfRowE E`, the domain of an external field is the explicit
+  per-field hypothesis `de (ser v) = ok v` (`C16_structs_roundtrip_ext`). For lossy `Relations` and
+  `debversion::Version` the hypothesis is discharged by the models of Props/C20Ext
+  (`C16_structs_roundtrip_rv`); for `url::Url`, chrono dates and the URI list it stays, as the named
+  assumption `ExtRoundTrips`. `C16_structs_domain_inhabited` and one `example` per shipped struct show
+  a realistic value inside the domain, so that no row is vacuous. -/
+
+open Deb822Verif.Props.C20 (ExtCodecs extOf fieldSpecE specOfRowE)
+open Deb822Verif.Props.C20Ext (extRV)
+
+variable {P : Type}
+
+/-- the old statement is empty for the four structs with a mandatory external field: a well-formed
+    value has that field, and `LeafDomain` asks for a modelled codec there -/
+theorem C16_structs_roundtrip_vacuous_rows :
+    ∀ id ∈ [c!"aptsources.Repository", c!"apt.Source", c!"apt.Package", c!"buildinfo.Buildinfo"],
+      ∃ s ∈ Gen.Structs.all, s.name = id ∧ ∃ f ∈ s.fields, f.optional = false
+        ∧ ((kindOf f).map Kind.isExternal) = some true := by decide +kernel
+
+/-- the domain of one field: `canon` of a modelled codec; for an external codec, that the codec `E`
+    supplies for it reads the serialised value back -/
+def FieldDomainE (E : ExtCodecs) (f : FieldRow) (v : Val) : Prop :=
+  match kindOf f with
+  | some (.modelled c) => c.canon v
+  | some (.external _) => ∃ c, extOf E f = some c ∧ c.de (c.ser v) = .ok v
+  | _ => False
+
+def LeafDomainE (E : ExtCodecs) : List FieldRow → List (Option Val) → Prop
+  | f :: fs, some v :: vs => FieldDomainE E f v ∧ LeafDomainE E fs vs
+  | _ :: fs, none :: vs => LeafDomainE E fs vs
+  | _, _ => True
+
+theorem fieldDomainE_roundtrip (E : ExtCodecs) (f : FieldRow) (fs : FieldSpec Val) (v : Val)
+    (h : fieldSpecE E f = some fs) (hd : FieldDomainE E f v) : fs.de (fs.ser v) = .ok v := by
+  unfold fieldSpecE at h
+  unfold FieldDomainE at hd
+  split at h
+  · rename_i c hk
+    rw [hk] at hd
+    simp only [Option.some.injEq] at h; subst h
+    exact C16_registry_ok _ (lookupKind_mem _ _ _ hk) v hd
+  · rename_i why hk
+    rw [hk] at hd
+    obtain ⟨c, hc, hrt⟩ := hd
+    rw [hc] at h
+    simp only [Option.map_some, Option.some.injEq] at h; subst h
+    exact hrt
+  · cases h
+
+theorem mapM_cons_some {α β : Type} (g : α → Option β) (a : α) (as : List α) (bs : List β)
+    (h : (a :: as).mapM g = some bs) : ∃ b bs', g a = some b ∧ as.mapM g = some bs' ∧ bs = b :: bs' := by
+  simp only [List.mapM_cons, Option.bind_eq_bind] at h
+  cases hg : g a with
+  | none => simp [hg] at h
+  | some b =>
+    cases hr : as.mapM g with
+    | none => simp [hg, hr] at h
+    | some bs' =>
+      simp only [hg, hr, Option.bind_some, Option.pure_def, Option.some.injEq] at h
+      exact ⟨b, bs', rfl, rfl, h.symm⟩
+
+theorem codecs_of_leafDomainE (E : ExtCodecs) (fl : List FieldRow) (spec : List (FieldSpec Val))
+    (x : List (Option Val)) (hs : fl.mapM (fieldSpecE E) = some spec) (hd : LeafDomainE E fl x) :
+    CodecsRoundTrip spec x := by
+  induction fl generalizing spec x with
+  | nil => simp at hs; subst hs; cases x <;> trivial
+  | cons f fs ih =>
+    obtain ⟨b, bs', hb, hbs, rfl⟩ := mapM_cons_some _ _ _ _ hs
+    cases x with
+    | nil => trivial
+    | cons v vs =>
+      cases v with
+      | none => simp only [LeafDomainE] at hd; simp only [CodecsRoundTrip]; exact ih bs' vs hbs hd
+      | some v =>
+        simp only [LeafDomainE] at hd
+        simp only [CodecsRoundTrip]
+        exact ⟨fieldDomainE_roundtrip E f b v hb hd.1, ih bs' vs hbs hd.2⟩
+
+theorem specKeys_specOfRowE (E : ExtCodecs) (fl : List FieldRow) (spec : List (FieldSpec Val))
+    (hs : fl.mapM (fieldSpecE E) = some spec) :
+    specKeys spec = fl.map (·.key) ∧ spec.map (·.optional) = fl.map (·.optional) := by
+  induction fl generalizing spec with
+  | nil => simp at hs; subst hs; exact ⟨rfl, rfl⟩
+  | cons f fs ih =>
+    obtain ⟨b, bs', hb, hbs, rfl⟩ := mapM_cons_some _ _ _ _ hs
+    obtain ⟨h1, h2⟩ := C20.fieldSpecE_key E f b hb
+    obtain ⟨i1, i2⟩ := ih bs' hbs
+    simp only [specKeys] at i1
+    exact ⟨by simp [specKeys, h1, i1], by simp [h2, i2]⟩
+
+/-- **all shipped structs, external codecs as parameters**: for every struct of the generated table,
+    every family `E` of codecs for the external leaf types, every lawful back-end and every value
+    whose modelled fields lie in their codecs' domains and whose external fields are read back from
+    their serialisation by `E`: `from_paragraph(to_paragraph(x)) = Ok(x)`, and after `update_paragraph`
+    on any prior paragraph it reads back as `x` -/
+theorem C16_structs_roundtrip_ext (B : Backend P) (hB : Lawful B) (E : ExtCodecs) :
+    ∀ s ∈ Gen.Structs.all, ∀ spec, specOfRowE E s = some spec → ∀ x,
+      WellFormed spec x → LeafDomainE E s.fields x →
+      fromParagraph B spec (toParagraph B spec x) = .ok x
+      ∧ ∀ p, fromParagraph B spec (updateParagraph B spec x p) = .ok x := by
+  intro s hs spec hspec x hw hd
+  have hk : (specKeys spec).Nodup := by
+    rw [(specKeys_specOfRowE E s.fields spec hspec).1]; exact C16_structs_keys_nodup s hs
+  have hc := codecs_of_leafDomainE E s.fields spec x hspec hd
+  exact ⟨C16_roundtrip B hB spec x hk hw hc, fun p => C16_update_reads_back B hB spec x p hk hw hc⟩
+
+/-- the ASSUMPTION that remains, per present field of type `url::Url`, `chrono::NaiveDate` or
+    `Vec<Url>`: the real codec reads the serialised value back (checked on the real code by the
+    worker's round-trip oracle on every request; not proved) -/
+def ExtRoundTrips (c : LeafCodec) (v : Val) : Prop := c.de (c.ser v) = .ok v
+
+/-- the domain of one field when lossy `Relations` and `debversion::Version` are the modelled codecs:
+    their canonical values (`relationsCodec.canon`: the printed text of a value the reader returns;
+    `versionCodec.canon` likewise) — no assumption; url / date / URI list: `ExtRoundTrips` -/
+def FieldDomainRV (url date uris : LeafCodec) (f : FieldRow) (v : Val) : Prop :=
+  match kindOf f with
+  | some (.modelled c) => c.canon v
+  | some (.external _) =>
+    if f.ty = c!"Relations" then relationsCodec.canon v
+    else if f.ty = c!"debversion::Version" then versionCodec.canon v
+    else ∃ c, extOf (extRV url date uris) f = some c ∧ ExtRoundTrips c v
+  | _ => False
+
+def LeafDomainRV (url date uris : LeafCodec) : List FieldRow → List (Option Val) → Prop
+  | f :: fs, some v :: vs => FieldDomainRV url date uris f v ∧ LeafDomainRV url date uris fs vs
+  | _ :: fs, none :: vs => LeafDomainRV url date uris fs vs
+  | _, _ => True
+
+theorem fieldDomainE_of_rv (url date uris : LeafCodec) (f : FieldRow) (v : Val)
+    (h : FieldDomainRV url date uris f v) : FieldDomainE (extRV url date uris) f v := by
+  unfold FieldDomainRV at h
+  unfold FieldDomainE
+  cases hk : kindOf f with
+  | none => rw [hk] at h; exact h
+  | some kd =>
+    rw [hk] at h
+    cases kd with
+    | modelled c => exact h
+    | noRoundTrip c w => exact h
+    | external why =>
+      simp only at h ⊢
+      split at h
+      · rename_i hty
+        exact ⟨relationsCodec, by simp [extOf, hty, extRV], C20Ext.C20_ext_kindOK.1 v h⟩
+      · rename_i hty
+        split at h
+        · rename_i hty2
+          refine ⟨versionCodec, ?_, C20Ext.C20_ext_kindOK.2 v h⟩
+          have e1 : ¬ (c!"debversion::Version" = c!"Relations") := by decide
+          have e2 : ¬ (c!"debversion::Version" = c!"url::Url") := by decide
+          simp [extOf, hty2, extRV, e1, e2]
+        · exact h
+
+theorem leafDomainE_of_rv (url date uris : LeafCodec) (fl : List FieldRow) (x : List (Option Val))
+    (h : LeafDomainRV url date uris fl x) : LeafDomainE (extRV url date uris) fl x := by
+  induction fl generalizing x with
+  | nil => cases x <;> trivial
+  | cons f fs ih =>
+    cases x with
+    | nil => trivial
+    | cons v vs =>
+      cases v with
+      | none => simp only [LeafDomainRV] at h; simp only [LeafDomainE]; exact ih vs h
+      | some v =>
+        simp only [LeafDomainRV] at h
+        simp only [LeafDomainE]
+        exact ⟨fieldDomainE_of_rv url date uris f v h.1, ih vs h.2⟩
+
+/-- **all shipped structs, `Relations` and `Version` modelled**: the spec of a row takes the Lean
+    models `relationsCodec` / `versionCodec` (Model/DeriveCodecs; `CodecOK` proved in Props/C20Ext) for
+    these two types; a value is in the domain when every present field lies in `canon` of its codec —
+    Relations and Version fields included — and the present url / date / URI-list fields satisfy the
+    assumption `ExtRoundTrips` -/
+theorem C16_structs_roundtrip_rv (B : Backend P) (hB : Lawful B) (url date uris : LeafCodec) :
+    ∀ s ∈ Gen.Structs.all, ∀ spec, specOfRowE (extRV url date uris) s = some spec → ∀ x,
+      WellFormed spec x → LeafDomainRV url date uris s.fields x →
+      fromParagraph B spec (toParagraph B spec x) = .ok x
+      ∧ ∀ p, fromParagraph B spec (updateParagraph B spec x p) = .ok x :=
+  fun s hs spec hspec x hw hd =>
+    C16_structs_roundtrip_ext B hB _ s hs spec hspec x hw (leafDomainE_of_rv url date uris s.fields x hd)
+
+/-- the same on the lossless paragraph, any prior tree -/
+theorem C16_lossless_structs_roundtrip_rv (url date uris : LeafCodec) :
+    ∀ s ∈ Gen.Structs.all, ∀ spec, specOfRowE (extRV url date uris) s = some spec → ∀ x,
+      WellFormed spec x → LeafDomainRV url date uris s.fields x →
+      fromParagraph losslessBackend spec (toParagraph losslessBackend spec x) = .ok x
+      ∧ ∀ p, fromParagraph losslessBackend spec (updateParagraph losslessBackend spec x p) = .ok x :=
+  C16_structs_roundtrip_rv losslessBackend C16_lossless_lawful url date uris
+
+/-! ### a decidable check of the domain, and one inhabitant per shipped struct
+
+  `Kind` holds functions, so `kindOf f = some (.modelled wordsCodec)` is not decidable. `Tag` names the
+  registry's codecs; `registryTags` is the registry with tags instead of codecs (`registry_tags`: entry
+  for entry the same keys, and the tag names the codec); `canonB` decides `canon` per tag. -/
+
+inductive Tag
+  | str | bool | u32 | usize | priority | multiArch | yesNoForce | vcs | fwd | origin | license | sig
+  | yesnoControl | yesnoApt | jaNee | words | splitLines | fileList | lines | types | env | originField
+  | ext
+  deriving DecidableEq, Repr
+
+def codecOfTag : Tag → Option LeafCodec
+  | .str => some strCodec
+  | .bool => some boolCodec
+  | .u32 => some (natCodec (2 ^ 32))
+  | .usize => some (natCodec Codec.usizeBound)
+  | .priority => some (enumCodec Gen.Enums.priority errPriority)
+  | .multiArch => some (enumCodec Gen.Enums.multiArch errMultiArch)
+  | .yesNoForce => some (enumCodec Gen.Enums.yesNoForce errRepoType)
+  | .vcs => some vcsCodec
+  | .fwd => some fwdCodec
+  | .origin => some originCodec
+  | .license => some licenseCodec
+  | .sig => some sigCodec
+  | .yesnoControl => some (yesnoCodec errYesnoControl)
+  | .yesnoApt => some (yesnoCodec errYesnoApt)
+  | .jaNee => some jaNeeCodec
+  | .words => some wordsCodec
+  | .splitLines => some splitLinesCodec
+  | .fileList => some fileListCodec
+  | .lines => some linesCodec
+  | .types => some typesCodec
+  | .env => some envCodec
+  | .originField => some originFieldCodec
+  | .ext => none
+
+def tagMatches (t : Tag) : Derive.Kind → Prop
+  | .modelled c => codecOfTag t = some c
+  | .external _ => t = .ext
+  | .noRoundTrip _ _ => False
+
+def registryTags : List ((Str × Str × Str) × Tag) := [
+  ((c!"", c!"", c!"String"), .str),
+  ((c!"", c!"", c!"bool"), .bool),
+  ((c!"", c!"", c!"u32"), .u32),
+  ((c!"", c!"", c!"usize"), .usize),
+  ((c!"", c!"", c!"i32"), .ext),
+  ((c!"", c!"", c!"Priority"), .priority),
+  ((c!"", c!"", c!"crate::fields::Priority"), .priority),
+  ((c!"", c!"", c!"crate::fields::MultiArch"), .multiArch),
+  ((c!"", c!"", c!"MultiArch"), .multiArch),
+  ((c!"", c!"", c!"YesNoForce"), .yesNoForce),
+  ((c!"", c!"", c!"crate::vcs::ParsedVcs"), .vcs),
+  ((c!"", c!"", c!"Forwarded"), .fwd),
+  ((c!"", c!"", c!"AppliedUpstream"), .origin),
+  ((c!"", c!"", c!"License"), .license),
+  ((c!"", c!"", c!"Signature"), .sig),
+  ((c!"", c!"", c!"Relations"), .ext),
+  ((c!"", c!"", c!"url::Url"), .ext),
+  ((c!"", c!"", c!"debversion::Version"), .ext),
+  ((c!"buildinfo.serialize_version", c!"buildinfo.deserialize_version", c!"debversion::Version"), .ext),
+  ((c!"dep3.serialize_date", c!"dep3.deserialize_date", c!"chrono::NaiveDate"), .ext),
+  ((c!"aptsources.serialize_uris", c!"aptsources.deserialize_uris", c!"Vec<Url>"), .ext),
+  ((c!"control.serialize_yesno", c!"control.deserialize_yesno", c!"bool"), .yesnoControl),
+  ((c!"aptsources.serializer_yesno", c!"aptsources.deserialize_yesno", c!"bool"), .yesnoApt),
+  ((c!"derive.syn_ser_yesno", c!"derive.syn_de_yesno", c!"bool"), .yesnoControl),
+  ((c!"convert.from_bool", c!"convert.to_bool", c!"bool"), .jaNee),
+  ((c!"apt.join_whitespace", c!"apt.deserialize_components", c!"Vec<String>"), .words),
+  ((c!"apt.join_whitespace", c!"apt.deserialize_architectures", c!"Vec<String>"), .words),
+  ((c!"apt.join_whitespace", c!"apt.deserialize_binaries", c!"Vec<String>"), .words),
+  ((c!"aptsources.serialize_string_chain", c!"aptsources.deserialize_string_chain", c!"Vec<String>"), .words),
+  ((c!"derive.syn_ser_words", c!"derive.syn_de_words", c!"Vec<String>"), .words),
+  ((c!"apt.join_lines", c!"apt.deserialize_package_list", c!"Vec<String>"), .splitLines),
+  ((c!"debiancopyright.serialize_copyrights", c!"debiancopyright.deserialize_copyrights", c!"Vec<String>"), .splitLines),
+  ((c!"debiancopyright.serialize_file_list", c!"debiancopyright.deserialize_file_list", c!"Vec<String>"), .fileList),
+  ((c!"ftpmaster.serialize_list", c!"ftpmaster.deserialize_list", c!"Vec<String>"), .lines),
+  ((c!"aptsources.serialize_types", c!"aptsources.deserialize_types", c!"HashSet<RepositoryType>"), .types),
+  ((c!"buildinfo.serialize_env", c!"buildinfo.deserialize_env", c!"HashMap<String, String>"), .env),
+  ((c!"buildinfo.serialize_pathbuf", c!"buildinfo.deserialize_pathbuf", c!"PathBuf"), .str),
+  ((c!"dep3.serialize_origin", c!"dep3.deserialize_origin", c!"(Option<OriginCategory>, Origin)"), .originField)
+]
+
+def Aligned : List ((Str × Str × Str) × Derive.Kind) → List ((Str × Str × Str) × Tag) → Prop
+  | [], [] => True
+  | e :: r, et :: rt => e.1 = et.1 ∧ tagMatches et.2 e.2 ∧ Aligned r rt
+  | _, _ => False
+
+/-- the tag table is the registry: the same keys in the same order, each tag names that entry's codec -/
+theorem registry_tags : Aligned registry registryTags := by
+  unfold registry registryTags
+  simp only [Aligned]
+  repeat (first | exact trivial | refine ⟨trivial, rfl, ?_⟩)
+
+def lookupTag (k : Str × Str × Str) : List ((Str × Str × Str) × Tag) → Option Tag
+  | [] => none
+  | e :: r => if e.1 = k then some e.2 else lookupTag k r
+
+def tagOf (f : FieldRow) : Option Tag := lookupTag (f.ser, f.de, f.ty) registryTags
+
+theorem lookup_tag_kind (k : Str × Str × Str) (reg : List ((Str × Str × Str) × Derive.Kind))
+    (tags : List ((Str × Str × Str) × Tag)) (h : Aligned reg tags) (t : Tag) (ht : lookupTag k tags = some t) :
+    ∃ kd, lookupKind k reg = some kd ∧ tagMatches t kd := by
+  induction reg generalizing tags with
+  | nil => cases tags <;> simp [Aligned, lookupTag] at h ht
+  | cons e r ih =>
+    cases tags with
+    | nil => simp [Aligned] at h
+    | cons et rt =>
+      simp only [Aligned] at h
+      obtain ⟨h1, h2, h3⟩ := h
+      simp only [lookupTag] at ht
+      simp only [lookupKind]
+      rw [h1]
+      split at ht
+      · rename_i hk
+        simp only [Option.some.injEq] at ht
+        subst ht
+        exact ⟨e.2, by simp [hk], h2⟩
+      · rename_i hk
+        simp only [hk, ↓reduceIte]
+        exact ih rt h3 ht
+
+theorem kindOf_of_tag (f : FieldRow) (t : Tag) (h : tagOf f = some t) :
+    ∃ kd, kindOf f = some kd ∧ tagMatches t kd :=
+  lookup_tag_kind _ _ _ registry_tags t h
+
+/-- `canon` of the codec a tag names, as a Boolean -/
+def canonB : Tag → Val → Bool
+  | .str, .str _ => true
+  | .bool, .bool _ => true
+  | .yesnoControl, .bool _ => true
+  | .yesnoApt, .bool _ => true
+  | .jaNee, .bool _ => true
+  | .u32, .nat n => decide (n < 2 ^ 32)
+  | .usize, .nat n => decide (n < Codec.usizeBound)
+  | .priority, .kw k => decide (k ∈ Gen.Enums.priority.variants)
+  | .multiArch, .kw k => decide (k ∈ Gen.Enums.multiArch.variants)
+  | .yesNoForce, .kw k => decide (k ∈ Gen.Enums.yesNoForce.variants)
+  | .vcs, .vcs x => decide (Codec.ParsedVcs.parse x.print = x)
+  | .fwd, .fwd x => decide (Codec.Forwarded.parse x.print = x)
+  | .origin, .origin x => decide (Codec.Origin.parse x.print = x)
+  | .license, .license x => decide (Codec.License.parse x.print = x)
+  | .sig, .sig x => decide (Codec.Signature.parse x.print = x)
+  | .originField, .originField c o => decide (Codec.parseOrigin (Codec.formatOrigin c o) = (c, o))
+  | .words, .list l => decide (∀ w ∈ l, w ≠ [] ∧ ∀ c ∈ w, Text.isWhitespace c = false)
+  | .fileList, .list l => decide (∀ w ∈ l, w ≠ [] ∧ ∀ c ∈ w, Text.isWhitespace c = false)
+  | .splitLines, .list l => decide (l ≠ [[]] ∧ ∀ w ∈ l, '\n' ∉ w)
+  | .lines, .list l => decide (∀ w ∈ l, w ≠ [] ∧ '\n' ∉ w ∧ w.getLast? ≠ some '\r')
+  | .types, v => decide (v = .list [] ∨ v = .list [c!"deb"] ∨ v = .list [c!"deb-src"] ∨ v = .list [c!"deb", c!"deb-src"])
+  | .env, .map m => decide (m.Pairwise (fun p q => Codec.strLt p.1 q.1 = true)
+      ∧ ∀ p ∈ m, '=' ∉ p.1 ∧ '\n' ∉ p.1 ∧ '\n' ∉ p.2 ∧ (envPiece p).getLast? ≠ some '\r')
+  | _, _ => false
+
+theorem canonB_sound (t : Tag) (v : Val) (h : canonB t v = true) (c : LeafCodec) (hc : codecOfTag t = some c) :
+    c.canon v := by
+  cases t <;> simp only [codecOfTag, Option.some.injEq, reduceCtorEq] at hc <;> subst hc <;>
+    cases v <;> simp only [canonB, decide_eq_true_eq, Bool.false_eq_true] at h
+  all_goals first
+    | exact ⟨_, rfl⟩
+    | exact ⟨_, rfl, h⟩
+    | exact ⟨_, _, rfl, h⟩
+    | exact ⟨_, rfl, h.1, h.2⟩
+    | exact h
+
+/-- the Boolean form of the external branch of `FieldDomainRV` -/
+def extDomB (url date uris : LeafCodec) (f : FieldRow) (v : Val) : Bool :=
+  if f.ty = c!"Relations" then
+    (match v with | .ext t => decide (relationsCodec.de t = .ok (.ext t)) | _ => false)
+  else if f.ty = c!"debversion::Version" then
+    (match v with | .ext t => decide (versionCodec.de t = .ok (.ext t)) | _ => false)
+  else match extOf (extRV url date uris) f with
+    | some c => decide (c.de (c.ser v) = .ok v)
+    | none => false
+
+/-- the Boolean form of `FieldDomainRV` -/
+def fieldDomB (url date uris : LeafCodec) (f : FieldRow) (v : Val) : Bool :=
+  match tagOf f with
+  | none => false
+  | some t => if t = .ext then extDomB url date uris f v else canonB t v
+
+theorem fieldDomB_sound (url date uris : LeafCodec) (f : FieldRow) (v : Val)
+    (h : fieldDomB url date uris f v = true) : FieldDomainRV url date uris f v := by
+  unfold fieldDomB at h
+  split at h
+  · cases h
+  · rename_i t ht
+    obtain ⟨kd, hk, hm⟩ := kindOf_of_tag f t ht
+    unfold FieldDomainRV
+    rw [hk]
+    cases kd with
+    | noRoundTrip c w => exact hm.elim
+    | modelled c =>
+      simp only [tagMatches] at hm
+      have hne : t ≠ .ext := by intro e; subst e; simp [codecOfTag] at hm
+      rw [if_neg hne] at h
+      exact canonB_sound t v h c hm
+    | external why =>
+      simp only [tagMatches] at hm
+      rw [if_pos hm] at h
+      unfold extDomB at h
+      simp only
+      split at h
+      · rename_i hty
+        rw [if_pos hty]
+        cases v <;> simp only [Bool.false_eq_true, decide_eq_true_eq] at h
+        rename_i tx
+        obtain ⟨rs, hr, he⟩ := C20Ext.relationsCodec_de_ok tx _ h
+        have e : tx = Rel.Lossy.showRelations rs := by simpa using he
+        exact ⟨rs, by rw [← e]; exact hr, by rw [← e]⟩
+      · rename_i hty
+        rw [if_neg hty]
+        split at h
+        · rename_i hty2
+          rw [if_pos hty2]
+          cases v <;> simp only [Bool.false_eq_true, decide_eq_true_eq] at h
+          rename_i tx
+          obtain ⟨x, hx, he⟩ := C20Ext.versionCodec_de_ok tx _ h
+          have e : tx = x.display := by simpa using he
+          exact ⟨x, by rw [← e]; exact hx, by rw [← e]⟩
+        · rename_i hty2
+          rw [if_neg hty2]
+          split at h
+          · rename_i c hc
+            exact ⟨c, hc, by simpa [ExtRoundTrips] using h⟩
+          · cases h
+
+def leafDomB (url date uris : LeafCodec) : List FieldRow → List (Option Val) → Bool
+  | f :: fs, some v :: vs => fieldDomB url date uris f v && leafDomB url date uris fs vs
+  | _ :: fs, none :: vs => leafDomB url date uris fs vs
+  | _, _ => true
+
+theorem leafDomB_sound (url date uris : LeafCodec) (fl : List FieldRow) (x : List (Option Val))
+    (h : leafDomB url date uris fl x = true) : LeafDomainRV url date uris fl x := by
+  induction fl generalizing x with
+  | nil => cases x <;> trivial
+  | cons f fs ih =>
+    cases x with
+    | nil => trivial
+    | cons v vs =>
+      cases v with
+      | none => simp only [leafDomB] at h; simp only [LeafDomainRV]; exact ih vs h
+      | some v =>
+        simp only [leafDomB, Bool.and_eq_true] at h
+        simp only [LeafDomainRV]
+        exact ⟨fieldDomB_sound url date uris f v h.1, ih vs h.2⟩
+
+/-- one value per field, mandatory ones present -/
+def wfB : List FieldRow → List (Option Val) → Bool
+  | [], [] => true
+  | f :: fs, v :: vs => (f.optional || v.isSome) && wfB fs vs
+  | _, _ => false
+
+theorem wfB_sound (E : ExtCodecs) (fl : List FieldRow) (spec : List (FieldSpec Val)) (x : List (Option Val))
+    (hs : fl.mapM (fieldSpecE E) = some spec) (h : wfB fl x = true) : WellFormed spec x := by
+  induction fl generalizing spec x with
+  | nil => simp at hs; subst hs; cases x <;> simp_all [wfB, WellFormed]
+  | cons f fs ih =>
+    obtain ⟨b, bs', hb, hbs, rfl⟩ := mapM_cons_some _ _ _ _ hs
+    cases x with
+    | nil => simp [wfB] at h
+    | cons v vs =>
+      simp only [wfB, Bool.and_eq_true, Bool.or_eq_true] at h
+      simp only [WellFormed]
+      refine ⟨?_, ih bs' vs hbs h.2⟩
+      intro ho
+      rw [(C20.fieldSpecE_key E f b hb).2] at ho
+      rcases h.1 with h1 | h1
+      · rw [ho] at h1; cases h1
+      · exact h1
+
+/-- the struct row `s` has a value in the domain of `C16_structs_roundtrip_rv` (url / date / URI list
+    instantiated by the identity codec on canonical texts, as in `C20Ext.E1`) that is read from the
+    paragraph `para` and has exactly the fields of `para` -/
+def DomainInhabitedBy (s : StructRow) (para : List (Str × Str)) : Prop :=
+  ∃ spec x, specOfRowE C20Ext.E1 s = some spec
+    ∧ fromFields (lookupFirst para) spec = .ok x
+    ∧ WellFormed spec x ∧ LeafDomainRV extCodec extCodec extCodec s.fields x
+    ∧ presentKeys spec x = para.map (·.1)
+
+def inhabitedB (s : StructRow) (para : List (Str × Str)) : Bool :=
+  match specOfRowE C20Ext.E1 s with
+  | none => false
+  | some spec =>
+    match fromFields (lookupFirst para) spec with
+    | .error _ => false
+    | .ok x => wfB s.fields x && leafDomB extCodec extCodec extCodec s.fields x
+        && decide (presentKeys spec x = para.map (·.1))
+
+theorem inhabited_of_check (s : StructRow) (para : List (Str × Str)) (h : inhabitedB s para = true) :
+    DomainInhabitedBy s para := by
+  unfold inhabitedB at h
+  split at h
+  · cases h
+  · rename_i spec hs
+    split at h
+    · cases h
+    · rename_i x hx
+      simp only [Bool.and_eq_true, decide_eq_true_eq] at h
+      exact ⟨spec, x, hs, hx, wfB_sound _ _ _ _ hs h.1.1, leafDomB_sound _ _ _ _ _ h.1.2, h.2⟩
+
+/-! #### the twelve shipped structs: a realistic paragraph each, every external kind present -/
+
+def exRepository : List (Str × Str) := [
+  (c!"Enabled", c!"yes"), (c!"Types", c!"deb deb-src"), (c!"URIs", c!"https://deb.debian.org/debian"),
+  (c!"Suites", c!"bookworm bookworm-updates"), (c!"Components", c!"main contrib"),
+  (c!"Architectures", c!"amd64 arm64"), (c!"By-Hash", c!"force"), (c!"Trusted", c!"true"),
+  (c!"Signed-By", c!"/usr/share/keyrings/debian-archive-keyring.gpg"), (c!"Description", c!"Debian stable")]
+
+def exRelease : List (Str × Str) := [
+  (c!"Codename", c!"bookworm"), (c!"Components", c!"main contrib non-free"), (c!"Architectures", c!"amd64 arm64"),
+  (c!"Description", c!"Debian 12.5"), (c!"Origin", c!"Debian"), (c!"Label", c!"Debian"), (c!"Suite", c!"stable"),
+  (c!"Version", c!"12.5"), (c!"Date", c!"Sat, 10 Feb 2024 11:07:25 UTC"), (c!"NotAutomatic", c!"false"),
+  (c!"ButAutomaticUpgrades", c!"false"), (c!"Acquire-By-Hash", c!"true")]
+
+def exAptSource : List (Str × Str) := [
+  (c!"Directory", c!"pool/main/h/hello"), (c!"Version", c!"2.10-3"), (c!"Package", c!"hello"),
+  (c!"Binary", c!"hello hello-doc"), (c!"Maintainer", c!"Santiago Vila <sanvila@debian.org>"),
+  (c!"Build-Depends", c!"debhelper-compat (= 13)"), (c!"Build-Depends-Indep", c!"texinfo (>= 6), help2man"),
+  (c!"Build-Conflicts", c!"autoconf2.13"), (c!"Standards-Version", c!"4.6.2"), (c!"Autobuild", c!"true"),
+  (c!"Priority", c!"optional"), (c!"Section", c!"devel"), (c!"Format", c!"3.0 (quilt)"),
+  (c!"Package-List", "hello deb devel optional arch=any\nhello-doc deb doc optional arch=all".toList)]
+
+def exAptPackage : List (Str × Str) := [
+  (c!"Package", c!"hello"), (c!"Version", c!"1:2.10-3+b1"), (c!"Architecture", c!"amd64"),
+  (c!"Maintainer", c!"Santiago Vila <sanvila@debian.org>"), (c!"Installed-Size", c!"280"),
+  (c!"Depends", c!"libc6 (>= 2.34), hello-data | hello-common"), (c!"Recommends", c!"hello-doc"),
+  (c!"Conflicts", c!"hello-traditional"), (c!"Description", c!"example package based on GNU hello"),
+  (c!"Priority", c!"optional"), (c!"Section", c!"devel"), (c!"Essential", c!"false"), (c!"Size", c!"56132"),
+  (c!"SHA256", c!"52b0cad2e741dd722c3e2e16a0aae57341619248ad8bc3ee1b3e40b7d1f38b0d")]
+
+def exBuildinfo : List (Str × Str) := [
+  (c!"Format", c!"1.0"), (c!"Build-Architecture", c!"amd64"), (c!"Source", c!"hello"), (c!"Binary", c!"hello"),
+  (c!"Architecture", c!"amd64"), (c!"Version", c!"2.10-3"), (c!"Build-Path", c!"/build/hello-2.10"),
+  (c!"Environment", "DEB_BUILD_OPTIONS=parallel=4\nLANG=C".toList),
+  (c!"Installed-Build-Depends", c!"gcc (= 4:12.2.0-3), libc6 (>= 2.36)")]
+
+def exControlSource : List (Str × Str) := [
+  (c!"Source", c!"hello"), (c!"Build-Depends", c!"debhelper-compat (= 13), gcc [amd64] <!nocheck>"),
+  (c!"Build-Conflicts", c!"autoconf2.13"), (c!"Standards-Version", c!"4.6.2"),
+  (c!"Homepage", c!"https://www.gnu.org/software/hello/"), (c!"Section", c!"devel"), (c!"Priority", c!"optional"),
+  (c!"Maintainer", c!"Santiago Vila <sanvila@debian.org>"), (c!"Rules-Requires-Root", c!"no"),
+  (c!"Vcs-Git", c!"https://salsa.debian.org/sanvila/hello.git -b debian/latest"),
+  (c!"Vcs-Browser", c!"https://salsa.debian.org/sanvila/hello")]
+
+def exControlBinary : List (Str × Str) := [
+  (c!"Package", c!"hello"), (c!"Depends", c!"libc6:any (>= 2.34) [amd64 !i386], hello-data | hello-common"),
+  (c!"Suggests", c!"hello-doc"), (c!"Architecture", c!"any"), (c!"Section", c!"devel"), (c!"Priority", c!"optional"),
+  (c!"Multi-Arch", c!"foreign"), (c!"Essential", c!"no"),
+  (c!"Description", "example package based on GNU hello\nThe GNU hello program produces a familiar, friendly greeting.".toList)]
+
+def exRemoval : List (Str × Str) := [
+  (c!"Date", c!"Mon, 01 Jan 2024 00:00:00 +0000"), (c!"Suite", c!"unstable"), (c!"Ftpmaster", c!"Joe Admin"),
+  (c!"Sources", "foo_1.0-1\nbar_2.0-1".toList), (c!"Binaries", "foo_1.0-1 [amd64, i386]\nlibfoo1_1.0-1 [all]".toList),
+  (c!"Reason", c!"ROM; obsolete"), (c!"Bug", c!"1000000")]
+
+def exHeader : List (Str × Str) := [
+  (c!"Format", c!"https://www.debian.org/doc/packaging-manuals/copyright-format/1.0/"),
+  (c!"Files-Excluded", "vendor/*\nnode_modules".toList), (c!"Source", c!"https://ftp.gnu.org/gnu/hello/"),
+  (c!"Upstream-Contact", c!"bug-hello@gnu.org")]
+
+def exLicensePara : List (Str × Str) := [
+  (c!"License", "GPL-3+\nThis program is free software\n.\nsee /usr/share/common-licenses/GPL-3".toList),
+  (c!"Comment", c!"as upstream")]
+
+def exFilesPara : List (Str × Str) := [
+  (c!"Files", "src/*\ndebian/*".toList), (c!"License", c!"GPL-3+"),
+  (c!"Copyright", "1992-2022 Free Software Foundation, Inc.\n2020 Santiago Vila".toList), (c!"Comment", c!"x")]
+
+def exPatchHeader : List (Str × Str) := [
+  (c!"Origin", c!"upstream, https://git.savannah.gnu.org/cgit/hello.git/commit/?id=abc"),
+  (c!"Forwarded", c!"https://lists.gnu.org/archive/html/bug-hello/2024-01/msg00000.html"),
+  (c!"Author", c!"A U Thor <author@example.org>"), (c!"Reviewed-by", c!"R E Viewer <rev@example.org>"),
+  (c!"Bug-Debian", c!"https://bugs.debian.org/123456"), (c!"Last-Update", c!"2024-01-31"),
+  (c!"Applied-Upstream", c!"commit:abc123"), (c!"Bug", c!"https://savannah.gnu.org/bugs/?1"),
+  (c!"Description", c!"fix the greeting")]
+
+/-- the shipped structs with their example paragraphs -/
+def shippedExamples : List (Str × List (Str × Str)) := [
+  (c!"aptsources.Repository", exRepository), (c!"apt.Release", exRelease), (c!"apt.Source", exAptSource),
+  (c!"apt.Package", exAptPackage), (c!"buildinfo.Buildinfo", exBuildinfo), (c!"control.Source", exControlSource),
+  (c!"control.Binary", exControlBinary), (c!"ftpmaster.Removal", exRemoval), (c!"debiancopyright.Header", exHeader),
+  (c!"debiancopyright.LicenseParagraph", exLicensePara), (c!"debiancopyright.FilesParagraph", exFilesPara),
+  (c!"dep3.PatchHeader", exPatchHeader)]
+
+def rowNamed (id : Str) : Option StructRow := Gen.Structs.all.find? (·.name == id)
+
+/-- **no row of the shipped table is vacuous**: each of the twelve shipped structs has a realistic
+    value — read from the paragraph given above, with its Relations / Version / Url / date / URI-list
+    fields PRESENT — that is well-formed and lies in the domain of `C16_structs_roundtrip_rv` -/
+theorem C16_structs_domain_inhabited :
+    ∀ e ∈ shippedExamples, ∃ s ∈ Gen.Structs.all, s.name = e.1 ∧ DomainInhabitedBy s e.2 := by
+  have key : ∀ e ∈ shippedExamples, ∃ s ∈ Gen.Structs.all, s.name = e.1 ∧ inhabitedB s e.2 = true := by
+    decide +kernel
+  intro e he
+  obtain ⟨s, hs, hn, hb⟩ := key e he
+  exact ⟨s, hs, hn, inhabited_of_check s e.2 hb⟩
+
+/-- every struct of the table that the harness drives and that is not synthetic is in the list -/
+example : shippedExamples.map (·.1)
+    = (Gen.Structs.all.map (·.name)).filter (fun n => !(c!"convert.").isPrefixOf n && !(c!"derive.").isPrefixOf n) := by
+  decide +kernel
+
+example : DomainInhabitedBy Gen.Structs.s0_aptsources_Repository exRepository := inhabited_of_check _ _ (by decide +kernel)
+example : DomainInhabitedBy Gen.Structs.s1_apt_Release exRelease := inhabited_of_check _ _ (by decide +kernel)
+example : DomainInhabitedBy Gen.Structs.s2_apt_Source exAptSource := inhabited_of_check _ _ (by decide +kernel)
+example : DomainInhabitedBy Gen.Structs.s3_apt_Package exAptPackage := inhabited_of_check _ _ (by decide +kernel)
+example : DomainInhabitedBy Gen.Structs.s4_buildinfo_Buildinfo exBuildinfo := inhabited_of_check _ _ (by decide +kernel)
+example : DomainInhabitedBy Gen.Structs.s5_control_Source exControlSource := inhabited_of_check _ _ (by decide +kernel)
+example : DomainInhabitedBy Gen.Structs.s6_control_Binary exControlBinary := inhabited_of_check _ _ (by decide +kernel)
+example : DomainInhabitedBy Gen.Structs.s7_ftpmaster_Removal exRemoval := inhabited_of_check _ _ (by decide +kernel)
+example : DomainInhabitedBy Gen.Structs.s8_debiancopyright_Header exHeader := inhabited_of_check _ _ (by decide +kernel)
+example : DomainInhabitedBy Gen.Structs.s9_debiancopyright_LicenseParagraph exLicensePara := inhabited_of_check _ _ (by decide +kernel)
+example : DomainInhabitedBy Gen.Structs.s10_debiancopyright_FilesParagraph exFilesPara := inhabited_of_check _ _ (by decide +kernel)
+example : DomainInhabitedBy Gen.Structs.s11_dep3_PatchHeader exPatchHeader := inhabited_of_check _ _ (by decide +kernel)
+
+/-- and the theorem applied to one of them: the `.buildinfo` value (mandatory external `Version`, a
+    `Relations` field, the environment map) round-trips on the lossless paragraph and reads back after
+    an update of any prior tree -/
+example : ∃ spec x, specOfRowE C20Ext.E1 Gen.Structs.s4_buildinfo_Buildinfo = some spec
+    ∧ fromFields (lookupFirst exBuildinfo) spec = .ok x
+    ∧ fromParagraph losslessBackend spec (toParagraph losslessBackend spec x) = .ok x
+    ∧ ∀ p, fromParagraph losslessBackend spec (updateParagraph losslessBackend spec x p) = .ok x := by
+  obtain ⟨spec, x, h1, h2, h3, h4, _⟩ :=
+    inhabited_of_check Gen.Structs.s4_buildinfo_Buildinfo exBuildinfo (by decide +kernel)
+  have := C16_lossless_structs_roundtrip_rv extCodec extCodec extCodec _ (by decide +kernel) spec h1 x h3 h4
+  exact ⟨spec, x, h1, h2, this.1, this.2⟩
+
 /-! ## Part 5 — lossless: comments and formatting of untouched fields are unchanged
 
   Clause of the property text: "on lossless paragraphs, all comments and formatting of untouched
@@ -947,5 +1571,54 @@ theorem C16_lossless_update_no_new_exact (spec : List (FieldSpec V)) :
           · right; right; exact hc
         · obtain ⟨c, hc, hck⟩ := hp f.key (by simp)
           rw [hnone c hc] at hck; cases hck
+
+/-! ### non-vacuity of Part 5: a prior paragraph in non-canonical layout
+
+  `X:1` (no blank after the colon), a comment, `Size:   2` (three blanks), a comment between two
+  duplicates of the owned key `Size`, `Y:⇥ 2` with continuation lines indented by a tab and by three
+  blanks, `Name:  n` (owned, two blanks), a trailing comment WITHOUT a final line feed. The struct
+  `exSpec3` owns `Name`, `Size` (optional) and `New`. -/
+
+def oddPrior : Str :=
+  "X:1\n# mid\nSize:   2\n# between\nSize: 9\nY:\t 2\n\t cont\n   more\nName:  n\n# trail".toList
+
+def oddCs : List DNode :=
+  match paragraphFromStr oddPrior with
+  | .ok p => p.children
+  | .error _ => []
+
+example : textList oddCs = oddPrior := by decide +kernel
+example : pitems oddCs = [(c!"X", c!"1"), (c!"Size", c!"2"), (c!"Size", c!"9"),
+    (c!"Y", "2\ncont\nmore".toList), (c!"Name", c!"n")] := by decide +kernel
+
+/-- the foreign children: `X`, the comments, `Y` with its three lines — byte for byte -/
+example : textList (foreignNodes (specKeys exSpec3) oddCs)
+    = "X:1\n# mid\n# between\nY:\t 2\n\t cont\n   more\n# trail".toList := by decide +kernel
+
+/-- `Size` absent, `New` new: both `Size` entries go (the comment between them stays), `Name` is
+    rewritten in place (owned: its two blanks are normalised), the trailing comment gets its line
+    feed, `New` is appended over two lines; every foreign line is printed as before -/
+example : textList (updateParagraph losslessKidsBackend exSpec3 [some (c!"n"), none, some "v\nw".toList] oddCs)
+    = "X:1\n# mid\n# between\nY:\t 2\n\t cont\n   more\nName: n\n# trail\nNew: v\n w\n".toList := by
+  decide +kernel
+example : textList (foreignNodes (specKeys exSpec3)
+      (updateParagraph losslessKidsBackend exSpec3 [some (c!"n"), none, some "v\nw".toList] oddCs))
+    = "X:1\n# mid\n# between\nY:\t 2\n\t cont\n   more\n# trail\n".toList := by decide +kernel
+/-- here the second case of the theorem applies (the trailing comment token gets a NEWLINE token
+    behind it); with every present field already in the paragraph
+    (`C16_lossless_update_no_new_exact`) the very same nodes stay -/
+example : TermLast (foreignNodes (specKeys exSpec3) oddCs) (foreignNodes (specKeys exSpec3)
+      (updateParagraph losslessKidsBackend exSpec3 [some (c!"n"), none, some "v\nw".toList] oddCs)) := by
+  rcases C16_lossless_update_keeps_foreign_nodes exSpec3 [some (c!"n"), none, some "v\nw".toList] oddCs
+    (by decide) with h | h
+  · exfalso
+    have := congrArg textList h
+    revert this
+    decide +kernel
+  · exact h
+example : (∀ k ∈ presentKeys exSpec3 [some (c!"m"), some (c!"3")], ∃ c ∈ oddCs, isEntryWithKey k c = true)
+    ∧ textList (updateParagraph losslessKidsBackend exSpec3 [some (c!"m"), some (c!"3")] oddCs)
+      = "X:1\n# mid\nSize: 3\n# between\nSize: 9\nY:\t 2\n\t cont\n   more\nName: m\n# trail".toList := by
+  decide +kernel
 
 end Deb822Verif.Props.C16More
